@@ -1,6 +1,7 @@
 /- C16 line-protocol driver: `lake env lean --run Verif/C16/Driver.lean` -/
 import Verif.Common.Proto
 import Verif.C16.Model
+import Verif.C16.Parent
 open Lean Verif.Proto Verif.C16
 
 namespace Verif.C16.Driver
@@ -93,6 +94,31 @@ def ofIndent (j : Json) : Except String (Option Nat) :=
   | .ok v => do pure (some (← v.getNat?))
   | .error _ => pure none
 
+def jOptNat : Option Nat → Json
+  | none => Json.null
+  | some n => jNat n
+
+def jPar (xs : List (Option Nat × Option Nat)) : Json :=
+  jList (fun (p : Option Nat × Option Nat) => Json.arr #[jOptNat p.1, jOptNat p.2]) xs
+
+/-- (number, recorded parent) of every node of the tree `from_string` returns, from the annotated
+stack machine; null when `from_string` raises -/
+def parentsOfText (s : Str) : Json :=
+  match fromString s with
+  | .ok _ =>
+    (match runP (scan (s.drop 1)) 0 [] with
+     | .ok t => jPar (flat t.1)
+     | .error _ => Json.null)
+  | .error _ => Json.null
+
+def parentsOfDict (d : D) : Json :=
+  match fromDict d with
+  | .ok _ =>
+    (match fromDictP d 0 none with
+     | some (a, _) => jPar (flat a)
+     | none => Json.null)
+  | .error _ => Json.null
+
 def handle (j : Json) : Except String Json := do
   let op ← getStr j "op"
   match op with
@@ -106,15 +132,17 @@ def handle (j : Json) : Except String Json := do
       ("udf", cps udf), ("udx", cps udx),
       ("p_udf", jRes (fromString udf)), ("p_udx", jRes (fromString udx)),
       ("dict", jD d), ("fd", jRes (fromDict d)),
+      ("par_udf", parentsOfText udf), ("par_udx", parentsOfText udx), ("par_fd", parentsOfDict d),
       ("terminals", jList jNode (terminals t)),
       ("preterminals", jList jNode (preterminals t)),
       ("internals", jList jNode (internals t))])
   | "text" =>
     let s ← getCps j "s"
-    pure (Json.mkObj [("scan", jList jEv (scan (s.drop 1))), ("parse", jRes (fromString s))])
+    pure (Json.mkObj [("scan", jList jEv (scan (s.drop 1))), ("parse", jRes (fromString s)),
+                      ("parents", parentsOfText s)])
   | "dict" =>
     let d ← ofD (← j.getObjVal? "d")
-    pure (Json.mkObj [("fd", jRes (fromDict d))])
+    pure (Json.mkObj [("fd", jRes (fromDict d)), ("par_fd", parentsOfDict d)])
   | _ => throw s!"bad op {op}"
 
 end Verif.C16.Driver
